@@ -31,6 +31,9 @@ type Obligation struct {
 	What     string           `json:"what"`
 	Quick    *Bounds          `json:"quick"`
 	Thorough *Bounds          `json:"thorough"`
+	// Cover: labels of verifrt.Cover points that some explored path must reach;
+	// a run in which one of them is reached by no path is vacuous (exit 2)
+	Cover []string `json:"cover,omitempty"`
 }
 
 type Bounds struct {
@@ -419,6 +422,14 @@ func runObligations(prop string, spec PropSpec, obls []Obligation) int {
 			}
 		}
 		code := ev.add(l, o, b, res)
+		if !*flagWitness {
+			for _, c := range o.Cover {
+				if res.Covers[c] == 0 && len(res.Violations) == 0 {
+					fmt.Printf("ERROR vacuous: no explored path of %s reached the cover point %q\n", o.Entry, c)
+					code = max(code, 2)
+				}
+			}
+		}
 		// witness twin
 		if !*flagWitness && code == 0 {
 			wcfg := cfgOf(b)
